@@ -904,7 +904,7 @@ func (tr *fnTrans) checkIterEnsures(li *loopInfo, guard string, b *ssa.BasicBloc
 		return
 	}
 	k := tr.ord(fmt.Sprintf("iter%d", li.ord))
-	ev := &evalCtx{tr: tr, env: tr.params, cur: tr.cur, old: li.hdrState}
+	ev := &evalCtx{tr: tr, env: tr.params, cur: tr.cur, old: li.hdrState, oldIsHeader: true}
 	ev.names = func(cx *evalCtx, name string) (Term, bool) {
 		if cx.cur == li.hdrState {
 			// inside old(): the value at the loop header of this iteration
